@@ -69,27 +69,9 @@ def run(check, ctx):
         run_row(check, repo, Row("scalar.nonneg." + cls, "C06", PT, cls + ".__imul__", I(0, None), INT("scalar"),
                                  self_obj=OBJ((PT, cls), _curve=OBJ(rawlib=OBJ()), _point=OBJ()),
                                  extra_points=(-1, 0, 1, -(1 << 70)), cite="scalar multiplication is defined for non-negative integers"))
-    # ---- ECDH: neutral element refused before the secret is produced ---------------------------------------
+    from .c06_extra import ecdh_neutral_rule
+    ecdh_neutral_rule(check, repo)
     dmod = repo.module(DH)
-    fn = repo.func(dmod, "_compute_ecdh")
-    for inf in (True, False):
-        it = Interp(repo, max_depth=1, method_models={"is_point_at_infinity": lambda i, base, a, kw, st, node, inf=inf: inf,
-                                                       "size_in_bytes": lambda i, base, a, kw, st, node: 32})
-        st = State()
-        P = it.new_obj(st, label="P", attrs={"x": 5})
-        pub = it.new_obj(st, label="pub", attrs={"pointQ": it.new_obj(st, label="Q")})
-        priv = it.new_obj(st, label="priv", attrs={"d": 3, "curve": "NIST P-256"})
-        it.inject = {"key_pub.pointQ * key_priv.d": P}
-        res = it.run(dmod, fn, {"key_priv": priv, "key_pub": pub}, state=st)
-        if inf:
-            ok = res.rejected() and all("ValueError" in it.exc_mro(o.exc, dmod) for o in res.raises())
-            check.ob("D", "D|ecdh.neutral", ok, dmod.path, fn.lineno,
-                     extracted="neutral result: %s" % ("refused with " + ",".join(res.raise_classes()) if res.rejected() else "a shared secret is returned"),
-                     expected="an exchange whose result is the neutral element raises ValueError")
-        else:
-            ok = not res.rejected()
-            check.ob("D", "D|ecdh.regular", ok, dmod.path, fn.lineno,
-                     extracted="regular result: %s" % ("secret returned" if ok else "refused"), expected="returns the x coordinate")
     # ---- key_agreement role matrix --------------------------------------------------------------------------
     fn = repo.func(dmod, "key_agreement")
     ECC = "Crypto.PublicKey.ECC"
